@@ -102,6 +102,7 @@ type StepSpec struct {
 	OutText       string   `json:"outText,omitempty"` // exact stdout text (C11)
 	Args          []string `json:"args,omitempty"`    // extra argv after the step id (raw YAML command text)
 	Script        string   `json:"script,omitempty"`
+	BgLate        bool     `json:"bgLate,omitempty"` // that background process prints a line to the step's stdout just before it ends
 	BgMs          int      `json:"bgMs,omitempty"`   // the command leaves a background process in its process group that holds its output open for this long (a daemonising script)
 	Direct        bool     `json:"direct,omitempty"` // in-process executor that calls Write on the given writers (like http/jq/mail)
 }
@@ -438,7 +439,11 @@ func (tr *Truth) StepProgram(pc *simexec.ProcCtx) int {
 		// like `sh -c 'worker & echo started'`: the background process stays in the step's process group and
 		// keeps the step's output open after the command itself has exited
 		simexec.Register(w, "/sim/bin/simbg", tr.BgProgram)
-		bg := simexec.Command("/sim/bin/simbg", name, fmt.Sprint(spec.BgMs))
+		bgArgs := []string{name, fmt.Sprint(spec.BgMs)}
+		if spec.BgLate {
+			bgArgs = append(bgArgs, "late")
+		}
+		bg := simexec.Command("/sim/bin/simbg", bgArgs...)
 		bg.Stdout, bg.Stderr = pc.Stdout, pc.Stderr
 		if err := bg.Start(); err == nil {
 			w.Probe("step_left_background_process")
@@ -490,8 +495,15 @@ func (tr *Truth) BgProgram(pc *simexec.ProcCtx) int {
 	case <-simrt.Dead():
 		simrt.Die()
 	}
+	if len(pc.Args) > 3 && pc.Args[3] == "late" {
+		n, _ := pc.Stdout.Write([]byte(BgLateText(name)))
+		run.OutWrote = n
+	}
 	return 0
 }
+
+// BgLateText is what a step's background process prints before it ends (BgLate).
+func BgLateText(step string) string { return "late-output-of-background-child:" + step + "\n" }
 
 func (tr *Truth) emitOutput(pc *simexec.ProcCtx, spec *StepSpec, run *StepRun) error {
 	if spec.OutText != "" {
